@@ -840,6 +840,7 @@ class MakeEvolvable(EvolvableModule):
             self.mlp_output_activation = activation
 
         self.mlp_activation = activation
+        self.recreate_network()
 
     @mutation(MutationType.LAYER)
     def add_mlp_layer(self) -> None:
